@@ -51,10 +51,19 @@ def impl_oracle(case, r):
                 bad.append(("oversize-shard", f"split {s} shard {j} holds {len(ex)} > {eps}"))
             if n != len(ex):
                 bad.append(("count-mismatch", f"split {s} shard {j} records {n} but holds {len(ex)}"))
-        distinct = {v for (_i, v, ok) in vals[int(s)] if v}
-        if len(distinct) <= 1 and all(isinstance(x[1], list) for x in shards):
+        # "as long as the metadata does not change, every shard except the last one written is full": a shard that is not the
+        # last of its split may be short only if the shard-level metadata changed right there, i.e. the shard's recorded metadata and the
+        # value the first example of the next shard was written under are two different non-empty values
+        vof = {i: v for (i, v, ok) in vals[int(s)] if ok}
+        if all(isinstance(x[1], list) and x[1] for x in shards):
             for j, (n, ex, _m) in enumerate(shards[:-1]):
-                if len(ex) != eps:
+                if len(ex) == eps:
+                    continue
+                # the shard-level metadata of shard j is what the shard records (a rejected write can set it too: the label is attached
+                # before the writer validates the values)
+                v_last = _m
+                v_next = vof.get(shards[j + 1][1][0], 0)
+                if not (v_last and v_next and v_last != v_next):
                     bad.append(("nonfull-before-last", f"split {s} shard {j} holds {len(ex)} != {eps} with unchanged metadata"))
     return bad
 
